@@ -378,11 +378,39 @@ def replay(data):
     import bert_e.bert_e as BE
     common.install_common_stubs()
     common.silence(BE)
+    if 'history' in data:
+        from . import histcheck
+        return histcheck.replay('C13', data)
+    if data['part'] == 'webhook-job':
+        from . import c17
+        return data['label'] in c17.cache_concrete(data['kind'], data['vals'])
     if data['part'] == 'worker':
         obs = worker_run(data['kind'])
         return not (obs['died'] is None and obs['done'] and obs['recorded']
                     and obs['marker_cleared'] and obs['unfinished'] == 1)
     return put_concrete(data['bad'])
+
+
+def webhook_events_part(rep):
+    """An accepted status webhook is followed by an evaluation: every real status handler
+    (GitHub status / check-suite, Bitbucket commit status) hands back a CommitJob for every
+    event that is not INPROGRESS, whatever the status cache holds (the cache step of C17,
+    its job clause reported here)."""
+    from . import c17
+    import bert_e.server.webhook as wh
+    common.silence(wh)
+    rep.functions_encoded += ['server.webhook.handle_github_status_event / handle_github_check_suite_event / '
+                              'handle_bitbucket_repo_event (a job for every accepted status event)']
+    for kind in ('github_status', 'github_check_suite', 'bitbucket_event'):
+        results, st = explore(c17.cache_harness(kind))
+        rep.add_stats(st, 'status webhook -> job (%s)' % kind)
+        for _, r in results:
+            if r['bad'] is not None and 'CommitJob produced' in r['label']:
+                data = dict(part='webhook-job', kind=kind, vals=r['bad'], label=r['label'])
+                rep.cexs.append(Cex('C13', 'an accepted status webhook is dropped (%s)' % kind, data,
+                                    r['label'] in c17.cache_concrete(kind, r['bad']),
+                                    '%s with cache / event %r' % (r['label'], r['bad'])))
+                break
 
 
 def check(rep):
@@ -438,3 +466,7 @@ def check(rep):
     if not any(r['bad'] for _, r in mt):
         rep.error('mutation twin (running job treated as duplicate) not refuted')
     rep.add_part('twins', paths=st.paths)
+    webhook_events_part(rep)
+    from . import histcheck
+    histcheck.check(rep, 'C13')
+
